@@ -6,6 +6,17 @@ import sys, os
 sys.path.insert(0, os.path.dirname(os.path.abspath(__file__)))
 
 NEED_RG = True
+MANIFEST = dict(
+    text="Coq theorem stop_is_prefix_slice: for SliceByLine::run (fast and slow line paths, every configuration, matcher, "
+         "input, binary mode) a sink refusing at call k receives exactly the first k+1 calls of the uninterrupted run, then "
+         "one finish after Stop / none and the error after Fail; proved compositionally (prefix law closed under sequencing, "
+         "branching, fuelled loops) over the model mirroring core.rs/glue.rs. Multi-line and incremental-reader strategies, "
+         "read failures and -m N: model=code correspondence at every stop index plus the prefix oracle on the real code "
+         "(theorems for those strategies not yet proved). D7 (multi-line final flush ignored the sink) fixed.",
+    note="trusted: Coq kernel, extraction, driver, harness; scripted matcher mirrors (Rust/Gallina); the law for MultiLine and "
+         "ReadByLine is tested, not proved",
+    technique="Coq proof (compositional prefix law) + extracted-model/implementation correspondence at every stop index",
+    design="§7 C16")
 
 
 def events_of(out):
